@@ -140,6 +140,7 @@ fn main() {
                     faults::run_schedules(&mut stdin.lock(), &mut out)
                 }
                 "sinkfail" => faults::run_sinkfail(&mut out, step),
+                "structure" => faults::run_structure(&mut out),
                 "mutate" => faults::run_mutate(&mut out, step, arg(&args, "--u32-step", "1").parse().unwrap()),
                 "depth" => {
                     let ds: Vec<usize> = arg(&args, "--depths", "10,100,1000").split(',').map(|x| x.parse().unwrap()).collect();
